@@ -18,11 +18,12 @@ RULE = ("exhaustive part: every multiset of n individuals over {0,1,2}^m in one 
         "near-tie part: values 0..3 ulps apart around non-dyadic doubles (0.3 vs 0.1+0.2, 1000.004, ...), weights +-1, exact "
         "bit patterns transported as rationals, n<=12, m<=4. random part (families cycled round-robin, so every seed runs every "
         "family): n<=40, m<=6, grids of width 2/3/8, dyadic values, chains, antichains, duplicates, layers, one varying "
-        "objective. Non-trivial = a population with at least two individuals")
+        "objective. large part: 7 populations per quick run (60 thorough) of 120..300 individuals, 3 or 4 objectives, "
+        "dyadic leading objectives and a two- or three-valued last objective, k in {n//3, n+1}. Non-trivial = a population with at least two individuals")
 EXHAUSTIVE = {"quick": False, "thorough": False}
 TIME_BUDGET = {"quick": 55, "thorough": 840}
-CASE_TIMEOUT = 2           # sorting <= 40 individuals takes milliseconds; 2 s without an answer is a hang
-MIN_CASES = 40             # a hanging implementation costs CASE_TIMEOUT per case: 40 cases still fit the budget
+CASE_TIMEOUT = 5           # the largest case (300 individuals) takes ~0.5 s; 5 s without an answer is a hang
+MIN_CASES = 2000
 TRUSTED = ["IEEE-754: value*weight of the small dyadic inputs used here is exact, so the Rat model and the float "
            "implementation sort the same numbers",
            "CPython dict insertion order, list.sort/sorted stability, bisect.bisect_right, tuple comparison "
@@ -78,13 +79,16 @@ def dom(a, b):
 
 
 def brute_depths(wv):
-    """Dominance depth by peeling, written directly from the statement."""
+    """Dominance depth by peeling, written directly from the statement: repeatedly remove the individuals that no
+    remaining individual dominates.  (The dominators of every individual are listed once, so that large populations
+    stay affordable.)"""
     n = len(wv)
+    dominators = [[j for j in range(n) if dom(wv[j], wv[i])] for i in range(n)]
     depth = [None] * n
     remaining = set(range(n))
     d = 0
     while remaining:
-        front = [i for i in remaining if not any(dom(wv[j], wv[i]) for j in remaining)]
+        front = [i for i in remaining if not any(j in remaining for j in dominators[i])]
         assert front
         for i in front:
             depth[i] = d
@@ -350,23 +354,57 @@ def neartie_cases(tier, rng, mult):
         yield case(w, pop, ks, "neartie/m=%d" % m)
 
 
+def large_cases(tier, rng, mult):
+    """populations far beyond any "small input" shortcut (120..300 individuals), 3 or 4 objectives, the last one or two
+    objectives taking only two or three values: large groups that are constant on the last objective reach the
+    lower-dimensional sweeps with ranks already raised from outside the group"""
+    count = (60 if tier == "thorough" else 7) * mult
+    for it in range(count):
+        n = [200, 120, 300, 200, 160, 250, 200][it % 7]
+        m = [3, 3, 3, 4, 3, 4, 3][it % 7]
+        lastvals = [2, 2, 3, 2, 2, 3, 2][it % 7]
+        res = [1 << 20, 1 << 20, 64, 1 << 20, 16, 1 << 20, 1 << 20][it % 7]     # resolution of the leading objectives
+        pop = []
+        for _ in range(n):
+            q = [sfr(Fr(rng.randrange(res), res)) for _ in range(m - 1)] + [rng.randrange(lastvals)]
+            if m == 4 and it % 2 == 1:
+                q[2] = rng.randrange(2)
+            pop.append(q)
+        w = rand_weights(rng, m)
+        ks = sorted(set([n // 3, n + 1]))
+        yield case(w, pop, ks, "large/n=%d/m=%d" % (n, m), ffos=(0,))
+
+
 def generate(tier, rng, mult):
     # interleave so that a time-limited run sees all parts
     ex = exhaustive(tier, rng, mult)
     rd = random_cases(tier, rng, mult)
     nt = neartie_cases(tier, rng, mult)
+    lg = large_cases(tier, rng, mult)
+    # one large population every ~1200 cases: the seven of a quick run are spread over the whole run
     alive = [ex, nt, rd]
     ratio = [24, 1, 2]
+    produced = 0
+    period = 1200 if tier != "thorough" else 1800
     while alive:
         for g, r in list(zip(alive, ratio)):
             for _ in range(r):
                 try:
                     yield next(g)
+                    produced += 1
+                    if lg is not None and produced % period == 1:
+                        try:
+                            yield next(lg)
+                        except StopIteration:
+                            lg = None
                 except StopIteration:
                     i = alive.index(g)
                     alive.pop(i)
                     ratio.pop(i)
                     break
+    if lg is not None:
+        for c in lg:
+            yield c
 
 
 def shrink(d):
